@@ -76,6 +76,34 @@ def run(ck):
         else:
             ck.anchor_missing("2", "T2-all-exits", "Poller::wait call in Poll::poll")
 
+    # every event the poller returned becomes exactly one PollEvent of the batch, with the readiness the poller reported:
+    # the conversion (a closure mapped over the events, or a loop pushing into the vector) builds a PollEvent on every
+    # non-error path of every iteration, and no readiness flag is written except from the poller event
+    conv_bodies = [pp] + [c for c in f.closures_of(pp)]
+    pe_aggs = [(b_, i, st) for b_ in conv_bodies for i, j, st in b_.statements() if st["s"] == "assign" and st["rv"]["r"] == "agg" and st["rv"].get("adt") == "sys::PollEvent" and not b_.is_cleanup(i)]
+    ev_aggs = [(b_, i, st) for b_, i, st in pe_aggs if any(T.path_has(b_, x, ".key") or T.tainted_by_call(b_, x, [c.bb for c in T.calls(b_, name=("from", "into"))]) for x in st["rv"]["fields"])]
+    ck.floor("2", "Poll::poll: PollEvent built from a poller event", len(ev_aggs), 1)
+    for b_, i, st in ev_aggs:
+        if b_ is not pp:
+            # closure form: every return that is not an error has built the event
+            errs = [c.bb for c in b_.calls() if c.name == "from_residual" and not b_.is_cleanup(c.bb)]
+            bad = T.t2_all_exits(b_, [0], [i] + errs)
+            ck.verdict(bad is None, "2", "T2-all-exits", b_, "each-poller-event=>PollEvent", "every poller event is converted into a PollEvent (or the conversion fails with an error)", "a poller event can be skipped by the conversion: its readiness is never dispatched (with edge / one-shot registrations it is lost for good)", site=b_.where(i), path=path_descr(b_, bad) if bad else None)
+        else:
+            lps = [(h, blk) for h, blk in pp.loops().items() if i in blk and pp.call_at(h) is not None and pp.call_at(h).name == "next"]
+            for h, blk in lps:
+                some_e, none_e = T.option_split(pp, h)
+                pushes_ = [c.bb for c in T.calls(pp, name=("push", "push_back")) if c.bb in blk]
+                bad = T.t2_all_exits(pp, [x for _, x in some_e], pushes_, exits={h})
+                ck.verdict(bool(pushes_) and bad is None, "2", "T2-all-exits", pp, "each-poller-event=>PollEvent", "every poller event is pushed into the batch as a PollEvent (or poll() fails with an error)", "an iteration over the poller's events can continue without pushing a PollEvent: that event's readiness is never dispatched (with edge / one-shot registrations it is lost for good)", site=pp.where(i), path=path_descr(pp, bad) if bad else None)
+    for b_ in conv_bodies:
+        for fld in ("readable", "writable"):
+            for i, j, st in T.stores_to_field(b_, fld):
+                if b_.is_cleanup(i) or not any(isinstance(p_, dict) and p_.get("n") == "readiness" for p_ in st["pl"]["p"]):
+                    continue
+                okw = st["rv"]["r"] == "use" and "k" not in st["rv"]["o"] and T.path_has(b_, st["rv"]["o"], "." + fld)
+                ck.verdict(okw, "2", "T6-provenance", b_, "readiness.%s:=poller-event.%s" % (fld, fld), "the readiness flag is copied from the poller event", "a readiness flag of a batched event is written with something else than the poller event's own flag (merged / invented readiness)", site=b_.where(i))
+
     # ---- clause 3: translation tables -----------------------------------------------------------------
     eb = common.event_builder(f)
     ci = eb[0] if eb else None
